@@ -1,12 +1,291 @@
-import RV.C10.Lemmas
+import RV.C10.GraphOps
+/-
+  C10 — property statements and theorems.
+
+  "INSERT DATA, DELETE DATA, DELETE WHERE, DELETE/INSERT … WHERE (WITH, USING, GRAPH templates),
+   CLEAR, DROP, ADD, MOVE and COPY transform the dataset into exactly the dataset the SPARQL 1.1
+   Update specification defines."
+
+  The specification side (`Spec.*`) is SPARQL 1.1 Update §4.3 / §3 written as membership
+  predicates over the quad set BEFORE the operation; the model side is `Model.lean` (loops as
+  rdflib codes them).  WHERE solutions are taken as the model's `Modify.solutions` evaluated on the
+  state before (pattern matching itself is C04's subject; here it is tied by the correspondence
+  run and by the harness' independent matcher).
+-/
 namespace RV.C10
 
+/-! ## Specification (SPARQL 1.1 Update §4.3) -/
+namespace Spec
+
+/-- μ extended by sk on blank-node labels (sk_μ of the formal model) -/
+def subst (μ : Binding) (sk : Nat → Option Nat) : TTerm → Option Term
+  | .const c => some c
+  | .var v => blookup μ v
+  | .label l => (sk l).map Term.fresh
+
+/-- graph of an instantiated quad: outside GRAPH = the WITH graph, else the real default graph;
+    a GRAPH variable must be bound to an IRI -/
+def substG (μ : Binding) (tgt : GName) : GTerm → Option GName
+  | .dflt => some tgt
+  | .name g => some (some g)
+  | .var v =>
+    match blookup μ v with
+    | some (.iri g) => some (some g)
+    | _ => none
+
+/-- `x` is the instance of template quad `q` under μ: every position bound, and a legal RDF quad
+    (subject not a literal, predicate an IRI, graph name an IRI) -/
+def Instance (μ : Binding) (sk : Nat → Option Nat) (tgt : GName) (q : QTpl) (x : Quad) : Prop :=
+  subst μ sk q.1.1 = some x.1 ∧ subst μ sk q.1.2.1 = some x.2.1 ∧ subst μ sk q.1.2.2 = some x.2.2.1 ∧
+  substG μ tgt q.2 = some x.2.2.2 ∧ x.1.isLit = false ∧ x.2.1.isIri = true
+
+/-- Dataset(QuadPattern, μ, …) -/
+def DatasetOf (μ : Binding) (sk : Nat → Option Nat) (tgt : GName) (tpl : List QTpl) (x : Quad) : Prop :=
+  ∃ q ∈ tpl, Instance μ sk tgt q x
+
+def noSk : Nat → Option Nat := fun _ => none
+
+/-- OpDeleteInsert: (GS \ ⋃_μ Dataset(del, μ)) ∪ ⋃_μ Dataset(ins, μ); solution number `i` uses the
+    fresh blank nodes `sk i` -/
+def OpDeleteInsert (before : List Quad) (sols : List Binding) (sk : Nat → Nat → Option Nat) (tgt : GName)
+    (del ins : List QTpl) (x : Quad) : Prop :=
+  (x ∈ before ∧ ¬ ∃ μ ∈ sols, DatasetOf μ noSk tgt del x) ∨
+  (∃ i μ, sols[i]? = some μ ∧ DatasetOf μ (sk i) tgt ins x)
+
+/-- which graphs a CLEAR / DROP target denotes -/
+def inTarget : Target → GName → Prop
+  | .dflt, g => g = none
+  | .named, g => g ≠ none
+  | .all, _ => True
+  | .graph n, g => g = some n
+
+end Spec
+
+/-! ## Invariants of the store (what the Memory store guarantees) -/
+
+/-- every named graph that holds a quad is registered (`Memory.add` registers the context) -/
+def KnownInv (s : St) : Prop := ∀ q ∈ s.quads, ∀ g, q.graph = some g → g ∈ s.known
+
+/-- a plain Graph holds triples of one graph only -/
+def SingleInv (c : Cfg) (s : St) : Prop := c.single = true → ∀ q ∈ s.quads, q.graph = none
+
+/-! ## Statements -/
+
+/-- `_fillTemplate` produces exactly Dataset(QuadPattern, μ): a template quad with an unbound variable,
+    a literal subject, a non-IRI predicate or a non-IRI graph name contributes nothing; every other one
+    contributes its instance. -/
+def Statement_template_skip : Prop :=
+  ∀ (μ : Binding) (bm : List (Nat × Nat)) (tgt : GName) (tpl : List QTpl) (x : Quad),
+    x ∈ fillTemplate μ bm tgt tpl ↔ Spec.DatasetOf μ (alookup bm) tgt tpl x
+
+/-- consequence spelled out: nothing `_fillTemplate` yields has a literal subject or a non-IRI predicate -/
+def Statement_template_legal : Prop :=
+  ∀ (μ : Binding) (bm : List (Nat × Nat)) (tgt : GName) (tpl : List QTpl) (x : Quad),
+    x ∈ fillTemplate μ bm tgt tpl → x.1.isLit = false ∧ x.2.1.isIri = true
+
+/-- The blank nodes minted for solution `i` (supply at `n` when the INSERT loop starts): at or above the
+    supply, and the same node is never handed out for two different (solution, label) pairs. -/
+def Statement_fresh_per_solution : Prop :=
+  ∀ (tpl : List QTpl) (n i j a b x y : Nat),
+    alookup (solMap tpl n i) a = some x → alookup (solMap tpl n j) b = some y →
+      n ≤ x ∧ (x = y → i = j ∧ a = b)
+
+/-- every label of the template does get a node in every solution (a labelled position is never "unbound") -/
+def Statement_fresh_total : Prop :=
+  ∀ (tpl : List QTpl) (n i l : Nat), l ∈ tplLabels tpl → ∃ v, alookup (solMap tpl n i) l = some v
+
+/-- ⊢ DELETE/INSERT … WHERE: the repaired `evalModify` leaves exactly OpDeleteInsert of the state before,
+    for some supply of fresh blank nodes that is injective over (solution, label) and beyond the store's
+    supply counter. -/
+def Statement_modify_spec : Prop :=
+  ∀ (c : Cfg) (u : Modify) (s : St),
+    ∃ sk : Nat → Nat → Option Nat,
+      (∀ i l v, sk i l = some v → s.next ≤ v) ∧
+      (∀ i j l l' v, sk i l = some v → sk j l' = some v → i = j ∧ l = l') ∧
+      ∀ x, x ∈ (evalModify c u s).quads ↔
+        Spec.OpDeleteInsert s.quads (u.solutions c s) sk u.withG (u.del.getD []) (u.ins.getD []) x
+
+/-- the per-solution loop of the pinned code computes the same dataset as the two passes -/
+def Statement_modify_interleaved_same (c : Cfg) (u : Modify) (s : St) : Prop :=
+  SetEq (evalModifyInterleaved c u s).quads (evalModify c u s).quads
+
+/-- the decidable condition under which it does: no quad inserted for an earlier solution is deleted for
+    a later one -/
+def NoLaterDeletion (c : Cfg) (u : Modify) (s : St) : Prop :=
+  (solPairs u.del u.ins u.withG (u.solutions c s) s.next).Pairwise (fun a b => ∀ y ∈ a.2, y ∉ b.1)
+
+/-- DELETE WHERE: solutions are those of the state before the first deletion -/
+def Statement_delete_where_snapshot : Prop :=
+  ∀ (c : Cfg) (bs : List Block) (s : St) (x : Quad),
+    x ∈ (evalDeleteWhere c bs s).quads ↔
+      x ∈ s.quads ∧ ¬ ∃ μ ∈ evalWhere (storeDataset c s none) bs none,
+        Spec.DatasetOf μ Spec.noSk none (blocksToTpl bs) x
+
+def Statement_insert_data_spec : Prop :=
+  ∀ (tpl : List QTpl) (s : St) (x : Quad),
+    x ∈ (evalInsertData tpl s).quads ↔
+      x ∈ s.quads ∨ Spec.DatasetOf [] (alookup (mkMap (tplLabels tpl) s.next)) none tpl x
+
+def Statement_delete_data_spec : Prop :=
+  ∀ (tpl : List QTpl) (s : St) (x : Quad),
+    x ∈ (evalDeleteData tpl s).quads ↔ x ∈ s.quads ∧ ¬ Spec.DatasetOf [] Spec.noSk none tpl x
+
+def Statement_clear_spec : Prop :=
+  ∀ (c : Cfg) (t : Target) (s : St) (x : Quad), KnownInv s → SingleInv c s →
+    (x ∈ (evalClear c t s).quads ↔ x ∈ s.quads ∧ ¬ Spec.inTarget t x.graph)
+
+def Statement_drop_spec : Prop :=
+  ∀ (c : Cfg) (t : Target) (s : St) (x : Quad), KnownInv s → SingleInv c s →
+    (x ∈ (evalDrop c t s).quads ↔ x ∈ s.quads ∧ ¬ Spec.inTarget t x.graph)
+
+/-- ADD: the target gains the source's triples; source = target is a no-op (uniform formula) -/
+def Statement_add_spec : Prop :=
+  ∀ (src dst : GName) (s : St) (x : Quad),
+    x ∈ (evalAdd src dst s).quads ↔ x ∈ s.quads ∨ (x.graph = dst ∧ (x.1, x.2.1, x.2.2.1, src) ∈ s.quads)
+
+/-- COPY: the target becomes a copy of the source; everything else untouched; source = target: no-op -/
+def Statement_copy_spec : Prop :=
+  ∀ (src dst : GName) (s : St) (x : Quad),
+    x ∈ (evalCopy src dst s).quads ↔
+      (x.graph ≠ dst ∧ x ∈ s.quads) ∨ (x.graph = dst ∧ (x.1, x.2.1, x.2.2.1, src) ∈ s.quads)
+
+/-- MOVE: as COPY, and the source is gone (unless source = target: no-op) -/
+def Statement_move_spec : Prop :=
+  ∀ (src dst : GName) (s : St) (x : Quad),
+    x ∈ (evalMove src dst s).quads ↔
+      (x.graph ≠ dst ∧ x.graph ≠ src ∧ x ∈ s.quads) ∨ (x.graph = dst ∧ (x.1, x.2.1, x.2.2.1, src) ∈ s.quads)
+
+/-- operations of one request run in lexical order: running `u₁ ; u₂` is running `u₂` from where `u₁` ended
+    (including "a failed operation aborts the rest") -/
 def Statement_request_in_order : Prop :=
   ∀ (c : Cfg) (u₁ u₂ : List Op) (s : St),
     runRequest c (u₁ ++ u₂) s = u₂.foldl (Run.step c) (runRequest c u₁ s)
 
-theorem request_in_order : Statement_request_in_order := by
-  intro c u₁ u₂ s
-  simp [runRequest, List.foldl_append]
+def Statement_failed_aborts : Prop :=
+  ∀ (c : Cfg) (ops : List Op) (r : Run), r.failed = true → ops.foldl (Run.step c) r = r
+
+/-- reads of the default graph in WHERE: the union of all graphs iff the engine switch is on AND the
+    object's own `default_union` is set (ConjunctiveGraph, Dataset(default_union=True)); the real default
+    graph otherwise; a WITH graph replaces either.  Every triple is read once. -/
+def Statement_union_switch_reads : Prop :=
+  ∀ (c : Cfg) (s : St) (t : Triple),
+    (t ∈ (storeDataset c s none).dflt ↔
+      if c.switch = true ∧ (c.api = .cg ∨ c.api = .cgi ∨ c.api = .dsu) then ∃ g, (t.1, t.2.1, t.2.2, g) ∈ s.quads
+      else (t.1, t.2.1, t.2.2, none) ∈ s.quads) ∧
+    (∀ w, t ∈ (storeDataset c s (some w)).dflt ↔ (t.1, t.2.1, t.2.2, some w) ∈ s.quads)
+
+/-- writes never depend on the switch: two configurations of the same class produce the same result for
+    every operation as soon as they produce the same WHERE solutions; a template quad outside GRAPH lands
+    in the WITH graph if there is one, else in the real default graph `none`. -/
+def Statement_union_switch_writes : Prop :=
+  (∀ (c c' : Cfg) (op : Op) (s : St), c.api = c'.api →
+      (∀ u, op = .modify u → u.solutions c s = u.solutions c' s) →
+      (∀ bs, op = .deleteWhere bs → evalWhere (storeDataset c s none) bs none = evalWhere (storeDataset c' s none) bs none) →
+      evalOp c op s = evalOp c' op s) ∧
+  (∀ (μ : Binding) (bm : List (Nat × Nat)) (tgt : GName) (t : TTpl) (x : Quad),
+      fillQuad μ bm tgt (t, .dflt) = some x → x.graph = tgt)
+
+/-- the graphs an operation may write to -/
+def Op.targets (c : Cfg) (s : St) : Op → List GName
+  | .insertData q | .deleteData q => q.filterMap (fun x => instGraph [] none x.2)
+  | .deleteWhere bs =>
+    (evalWhere (storeDataset c s none) bs none).flatMap (fun μ =>
+      (blocksToTpl bs).filterMap (fun x => instGraph μ none x.2))
+  | .modify u =>
+    (u.solutions c s).flatMap (fun μ =>
+      ((u.del.getD []) ++ (u.ins.getD [])).filterMap (fun x => instGraph μ u.withG x.2))
+  | .clear _ t | .drop _ t => clearTargets c s t
+  | .add _ _ b | .copy _ _ b => [b]
+  | .move _ a b => [a, b]
+
+/-- untouched graphs stay untouched -/
+def Statement_untouched_graphs_unchanged : Prop :=
+  ∀ (c : Cfg) (op : Op) (s s' : St) (x : Quad), evalOp c op s = some s' →
+    x.graph ∉ op.targets c s → (x ∈ s'.quads ↔ x ∈ s.quads)
+
+/-! ## Proofs -/
+
+theorem instTerm_eq_subst (μ : Binding) (bm : List (Nat × Nat)) (t : TTerm) :
+    instTerm μ bm t = Spec.subst μ (alookup bm) t := by
+  cases t <;> rfl
+
+theorem instGraph_eq_substG (μ : Binding) (tgt : GName) (g : GTerm) :
+    instGraph μ tgt g = Spec.substG μ tgt g := by
+  cases g <;> rfl
+
+theorem template_skip : Statement_template_skip := by
+  intro μ bm tgt tpl x
+  rw [mem_fillTemplate]
+  unfold Spec.DatasetOf Spec.Instance
+  constructor
+  · rintro ⟨q, hq, h⟩
+    refine ⟨q, hq, ?_⟩
+    have := (fillQuad_eq_some μ bm tgt q x).1 h
+    simpa only [instTerm_eq_subst, instGraph_eq_substG] using this
+  · rintro ⟨q, hq, h⟩
+    refine ⟨q, hq, (fillQuad_eq_some μ bm tgt q x).2 ?_⟩
+    simpa only [instTerm_eq_subst, instGraph_eq_substG] using h
+
+theorem template_legal : Statement_template_legal := by
+  intro μ bm tgt tpl x hx
+  obtain ⟨q, _, h⟩ := (template_skip μ bm tgt tpl x).1 hx
+  exact ⟨h.2.2.2.2.1, h.2.2.2.2.2⟩
+
+theorem fresh_per_solution : Statement_fresh_per_solution := by
+  intro tpl n i j a b x y hx hy
+  unfold solMap at hx hy
+  have rx := alookup_mkMap_range _ _ _ _ hx
+  have ry := alookup_mkMap_range _ _ _ _ hy
+  refine ⟨by have := Nat.zero_le (i * (tplLabels tpl).length); omega, ?_⟩
+  intro e
+  subst e
+  have hij : i = j := by
+    rcases Nat.lt_trichotomy i j with h | h | h
+    · exfalso
+      have : (i + 1) * (tplLabels tpl).length ≤ j * (tplLabels tpl).length := Nat.mul_le_mul_right _ h
+      rw [Nat.add_mul] at this; omega
+    · exact h
+    · exfalso
+      have : (j + 1) * (tplLabels tpl).length ≤ i * (tplLabels tpl).length := Nat.mul_le_mul_right _ h
+      rw [Nat.add_mul] at this; omega
+  subst hij
+  exact ⟨rfl, alookup_mkMap_inj _ _ _ _ _ hx hy⟩
+
+theorem fresh_total : Statement_fresh_total := by
+  intro tpl n i l hl
+  exact alookup_mkMap_mem _ _ _ hl
+
+theorem alookup_nil : alookup [] = Spec.noSk := by
+  funext l; rfl
+
+theorem mem_fillTemplate_spec (μ : Binding) (bm : List (Nat × Nat)) (tgt : GName) (tpl : List QTpl) (x : Quad) :
+    x ∈ fillTemplate μ bm tgt tpl ↔ Spec.DatasetOf μ (alookup bm) tgt tpl x := template_skip μ bm tgt tpl x
+
+theorem datasetOf_nil (μ : Binding) (sk : Nat → Option Nat) (tgt : GName) (x : Quad) :
+    Spec.DatasetOf μ sk tgt [] x ↔ False := by
+  simp [Spec.DatasetOf]
+
+theorem modify_spec : Statement_modify_spec := by
+  intro c u s
+  refine ⟨fun i => alookup (solMap (u.ins.getD []) s.next i), ?_, ?_, ?_⟩
+  · intro i l v h
+    exact (fresh_per_solution _ _ _ _ _ _ _ _ h h).1
+  · intro i j l l' v h h'
+    exact (fresh_per_solution _ _ _ _ _ _ _ _ h h').2 rfl
+  · intro x
+    unfold evalModify Spec.OpDeleteInsert
+    cases hd : u.del <;> cases hi : u.ins <;> simp only [Option.getD]
+    · simp only [datasetOf_nil, and_false, exists_false, not_false_eq_true, and_true, or_false]
+    · next ins =>
+      rw [mem_foldl_insertSolution]
+      simp only [mem_fillTemplate_spec, datasetOf_nil, and_false, exists_false, not_false_eq_true, and_true,
+        solMap]
+    · next del =>
+      rw [mem_foldl_deleteSolution]
+      simp only [mem_fillTemplate_spec, alookup_nil, datasetOf_nil, and_false, exists_false, or_false,
+        not_exists, not_and]
+    · next del ins =>
+      rw [mem_foldl_insertSolution, foldl_deleteSolution_next, mem_foldl_deleteSolution]
+      simp only [mem_fillTemplate_spec, alookup_nil, not_exists, not_and, solMap]
 
 end RV.C10
